@@ -320,8 +320,21 @@ const char *tls_signature_scheme_name(int scheme)
 	return NULL;
 }
 
+
+// ctime() formats into one static buffer shared by all threads
+static const char *tls_ctime(const time_t *tv, char buf[32])
+{
+#if defined(WIN32) || defined(_WIN32)
+	if (ctime_s(buf, 32, tv) != 0) return "(null)\n";
+#else
+	if (!ctime_r(tv, buf)) return "(null)\n";
+#endif
+	return buf;
+}
+
 int tls_random_print(FILE *fp, const uint8_t random[32], int format, int indent)
 {
+	char tbuf[32];
 	time_t gmt_unix_time = 0;
 	const uint8_t *cp = random;
 	size_t len = 4;
@@ -329,7 +342,7 @@ int tls_random_print(FILE *fp, const uint8_t random[32], int format, int indent)
 	tls_uint32_from_bytes((uint32_t *)&gmt_unix_time, &cp, &len);
 	format_print(fp, format, indent, "Random\n");
 	indent += 4;
-	format_print(fp, format, indent, "gmt_unix_time : %s", ctime(&gmt_unix_time));
+	format_print(fp, format, indent, "gmt_unix_time : %s", tls_ctime(&gmt_unix_time, tbuf));
 	format_bytes(fp, format, indent, "random", random + 4, 28);
 	return 1;
 }
